@@ -706,7 +706,49 @@ func c20Big(extra int) error {
 	return nil
 }
 
+// c20Grid: every combination of parameter classes once, sequentially, against a small
+// workload: absent / valid / invalid values of maxmem, augment and similarity (the random
+// sessions draw each parameter independently and need luck to hit a particular pair).
+func c20Grid() error {
+	w := newWorkload(1)
+	defer w.shutdown()
+	srv := httptest.NewServer(http.HandlerFunc(webstack.SnapshotHandler))
+	defer srv.Close()
+	client := &http.Client{Timeout: 120 * time.Second}
+	opt := func(v string) *string {
+		if v == "-" {
+			return nil
+		}
+		return sp(v)
+	}
+	n := 0
+	for _, mm := range []string{"-", "", "1048576", "1", "x", "1e6", "0x10"} {
+		for _, au := range []string{"-", "", "0", "1", "2", "x", "-1"} {
+			for _, si := range []string{"-", "", "anyvalue", "exactflags", "alike"} {
+				r := c20Req{Method: "GET", Maxmem: opt(mm), Augment: opt(au), Similarity: opt(si)}
+				resp, err := client.Get(srv.URL + "/debug?" + r.query())
+				if err != nil {
+					return fmt.Errorf("%sGET ?%s: %v", timeoutIsHarness(err), r.query(), err)
+				}
+				body, rerr := io.ReadAll(resp.Body)
+				resp.Body.Close()
+				if rerr != nil {
+					return fmt.Errorf("%sGET ?%s: reading the response: %v", timeoutIsHarness(rerr), r.query(), rerr)
+				}
+				if err := c20CheckResponse(&r, resp.StatusCode, resp.Header.Get("Content-Type"), body, len(w.stable), runtime.NumGoroutine()+64); err != nil {
+					return err
+				}
+				n++
+			}
+		}
+	}
+	statsFor("C20").count(int64(n), int64(n))
+	statsFor("C20").class("parameter_grid_requests", int64(n))
+	return nil
+}
+
 func init() {
+	register("C20/grid", func(m map[string]int) error { return c20Grid() })
 	register(c20.key(), c20.Oracle)
 	register("C20/big", func(m map[string]int) error { return c20Big(m["extra"]) })
 }
@@ -721,6 +763,14 @@ func TestC20(t *testing.T) {
 	f := c20First
 	f.Checks = n(6, 120)
 	f.Run(t)
+	if cfg.Shard == 1%cfg.NShards {
+		if err := guard(c20Grid); err != nil {
+			inconclusiveIfHarness("C20/grid", err)
+			statsFor("C20").markFailed()
+			p := saveReplay("C20", "C20/grid", map[string]int{}, err)
+			t.Fatalf("property C20 violated (C20/grid): %v\nreplay=%s", err, p)
+		}
+	}
 	if cfg.Shard == 0 {
 		extra := 6000
 		if err := guard(func() error { return c20Big(extra) }); err != nil {
